@@ -126,6 +126,17 @@ class Lowering:
         self.stats = {'functions': 0, 'nodes': 0, 'loops': 0}
         self.maythrow = set()
         self.lambdas = {}
+        import cxxtypes
+        cxxtypes.PREPROCESS = self.type_pre
+
+    def type_pre(self, s):
+        """`Alias{}.size()` inside a type string -> the array extent of the alias (clang prints the expression verbatim)"""
+        def sub(m):
+            t = self.resolve(parse_type(m.group(1)))
+            if t.kind == 'tmpl' and t.name == 'std::array':
+                return str(t.args[1].n)
+            raise LoweringError(f'cannot evaluate {m.group(0)} inside a type')
+        return re.sub(r'([A-Za-z_][\w:]*)\{\}\.size\(\)', sub, s)
 
     # ------------------------------------------------------------------ types
     def resolve(self, t):
